@@ -211,7 +211,9 @@ Definition run_attr (a : list Z) : list Z :=
    -> 0 <token dump of the printed attribute> <result>    | 2 class (the generator panics) | -2 (malformed)
       result (what parse_asn_definition lets one observe of the re-parsed attribute)
         header : 0 kind tagopt ext | 1        (a CHOICE printed without tag answers tagopt 0: its derived default tag is not the attribute's)
-        field  : 0 <aty> tagopt nconsts (str z)* | 1          ENUMERATED variant : 0 (0 | 1 n) | 1 *)
+        field  : 0 <aty> tagopt nconsts (str z)* nconsts' (str z)* | 1     (the second list: the constants of the member in
+                 to_rust_keep_names of the re-parsed definition; a CHOICE variant has none)
+        ENUMERATED variant : 0 (0 | 1 n) | 1 *)
 From A1 Require Import Front.AttrItem.
 
 Definition d_tagopt : dec (option tag) := fun a =>
@@ -314,13 +316,18 @@ Definition run_attr_header (a : list Z) : list Z :=
   | [] => [-2]
   end.
 
-Definition run_attr_field (c : ctx) (t : aty) (tg : option tag) (cs : list (list N * Z)) : list Z :=
+Definition run_attr_field (c : ctx) (tuple : bool) (t : aty) (tg : option tag) (cs : list (list N * Z)) : list Z :=
   let toks := print_attr (mk_attr (PType t) tg cs None) in
   0 :: dump_toks (2 * depth t + 8) toks ++
     match parse_attr c (S (depth t)) toks with
     | Ok a' =>
       match into_asn (match t with ARef n _ => n | _ => [] end) a' with
-      | Some (tg', t', cs') => 0 :: e_aty t' ++ e_tagopt tg' ++ e_consts cs'
+      | Some (tg', t', cs') =>
+        0 :: e_aty t' ++ e_tagopt tg' ++ e_consts cs' ++
+          e_consts (match c with
+                    | CTransparent => if tuple then tuple_rust_constants t' cs' else field_rust_constants t' cs'
+                    | _ => []
+                    end)
       | None => [1]
       end
     | _ => [1]
@@ -335,7 +342,7 @@ Definition run_attr_item (a : list Z) : list Z :=
       match d_tagopt r1 with
       | Some (tg, r2) =>
         match d_count r2 with
-        | Some (n, r3) => match d_consts n r3 with Some (cs, []) => run_attr_field CTransparent t tg cs | _ => [-2] end
+        | Some (n, r3) => match d_consts n r3 with Some (cs, []) => run_attr_field CTransparent false t tg cs | _ => [-2] end
         | None => [-2]
         end
       | None => [-2]
@@ -344,14 +351,14 @@ Definition run_attr_item (a : list Z) : list Z :=
     end
   | 2 :: r =>
     match d_aty (S (length r)) r with
-    | Some (t, r1) => match d_tagopt r1 with Some (tg, []) => run_attr_field CChoiceVariant t tg [] | _ => [-2] end
+    | Some (t, r1) => match d_tagopt r1 with Some (tg, []) => run_attr_field CChoiceVariant false t tg [] | _ => [-2] end
     | None => [-2]
     end
   | 3 :: r =>
     match d_aty (S (length r)) r with
     | Some (t, r1) =>
       match d_count r1 with
-      | Some (n, r2) => match d_consts n r2 with Some (cs, []) => run_attr_field CTransparent t None cs | _ => [-2] end
+      | Some (n, r2) => match d_consts n r2 with Some (cs, []) => run_attr_field CTransparent true t None cs | _ => [-2] end
       | None => [-2]
       end
     | None => [-2]
